@@ -27,6 +27,9 @@
 //!   TYPE per family, both before the family's samples; a family never appears in two groups; every sample
 //!   belongs to the current group and is named `family` or `family` + a suffix allowed for the type
 //!   (`_bucket` `_sum` `_count` for histogram, `_sum` `_count` for summary, none otherwise);
+//! * a sample is what the declared type of its family allows: no bare-name sample under `histogram`; the
+//!   label `le` on (and only on) `_bucket` samples of a histogram; the label `quantile` on (and only on)
+//!   the bare-name samples of a summary;
 //! * (option, on in strict mode) no two samples with the same name and the same label set.
 //!
 //! `parse_exposition_with` can relax the last two rules: with `allow_foreign_sample_names` a sample whose
@@ -150,6 +153,25 @@ pub fn sample_belongs(family: &str, mtype: &str, sample: &str) -> bool {
         Some(rest) => allowed_suffixes(mtype).contains(&rest),
         None => false,
     }
+}
+
+/// Is the sample (which `sample_belongs` to the family) something the declared type allows?
+/// No bare-name sample under `histogram`; `le` exactly on `_bucket` samples of a histogram; `quantile`
+/// exactly on the bare-name samples of a summary.
+pub fn role_allowed(family: &str, mtype: &str, s: &Sample) -> Result<(), String> {
+    let suffix = &s.name[family.len()..];
+    let has_le = s.label("le").is_some();
+    let has_q = s.label("quantile").is_some();
+    if mtype == "histogram" && suffix.is_empty() {
+        return Err(format!("sample {:?} carries the bare name of a histogram family", s.name));
+    }
+    if has_le != (mtype == "histogram" && suffix == "_bucket") {
+        return Err(format!("label `le` {} on sample {:?} of a {} family", if has_le { "present" } else { "missing" }, s.name, mtype));
+    }
+    if has_q != (mtype == "summary" && suffix.is_empty()) {
+        return Err(format!("label `quantile` {} on sample {:?} of a {} family", if has_q { "present" } else { "missing" }, s.name, mtype));
+    }
+    Ok(())
 }
 
 pub fn is_metric_name(s: &str) -> bool {
@@ -544,6 +566,8 @@ pub fn parse_exposition_with(text: &str, opts: &ParseOptions) -> Result<Expositi
                         ));
                     }
                     exp.foreign.push((exp.families.len(), g.samples.len()));
+                } else if let Err(e) = role_allowed(&g.name, &ty, &s) {
+                    return Err(format!("line {}: {}", no, e));
                 }
                 if opts.reject_duplicate_series {
                     let mut ls = s.labels.clone();
@@ -591,6 +615,10 @@ mod tests {
             "# TYPE a counter\na x\n",
             "# HELP a x\n\n",
             "# HELP a bad \\q\n# TYPE a counter\n",
+            "# TYPE h histogram\nh{quantile=\"0.5\"} 1\nh_sum 1\nh_count 1\n", // summary samples under TYPE histogram
+            "# TYPE h histogram\nh_bucket 1\n",                               // bucket without le
+            "# TYPE s summary\ns 1\n",                                        // summary sample without quantile
+            "# TYPE c counter\nc{le=\"1\"} 1\n",
         ] {
             assert!(parse_exposition(bad).is_err(), "{:?}", bad);
         }
